@@ -23,7 +23,7 @@ FLOORS = {"quick": {"stalls_reached": 5000, "timeout_args_checked": 10000, "dist
 EXHAUSTIVE = {"quick": False, "thorough": True}
 
 K = 8
-OPS = ["connect", "connect-auth", "shell", "exec_out", "streaming_shell", "root", "reboot", "list", "stat", "pull", "pull-cb", "push", "push-dir"]
+OPS = ["connect", "connect-auth", "shell", "exec_out", "streaming_shell", "root", "reboot", "list", "stat", "pull", "pull-cb", "push", "push-dir", "push-cb"]
 STALLS = ["silence", "eof", "trickle", "other-traffic", "unexpected", "partial", "data-flood", "mute-stream", "one-other-stream", "header-then-nothing"]
 TS = [None, 0, 0.5, -1, 3]
 RS = [0, 0.3, 2, -1, 10]
@@ -49,6 +49,13 @@ def gen_cases(tier, seed):
         for tup in ((0.5, 2, 5, None), (None, 0.3, None, None), (0, 2, 1, None)):
             yield {"op": "connect-auth", "impl": impl, "T": tup[0], "R": tup[1], "X": tup[2], "A": tup[3], "seed": "%d:an%d" % (seed, i)}
             i += 1
+    # a device that serves one FileSync stream at a time: the nested stream of a pull with a progress callback makes it close the outer one (FAIL + CLSE, unsolicited)
+    # and never answer what the host writes there afterwards
+    for impl in ("sync", "async"):
+        for tup in tuples[:6] if tier == "quick" else tuples[:40]:
+            for variant in (0, 1):
+                yield {"op": "pull-cb", "impl": impl, "T": tup[0], "R": tup[1], "X": tup[2], "A": tup[3], "seed": "%d:k%d" % (seed, i), "variant": variant, "kind": "killed"}
+                i += 1
     # a second scenario variant with many more await points (fragmented reads, multi-WRTE transfers, more chunks)
     for op in OPS:
         for impl in ("sync", "async"):
@@ -149,11 +156,15 @@ def setup(impl, case):
             if o.ok:
                 o.value = sorted((bytes(p["path"]), bytes(p["data"]), p["status"]) for p in plan.pushed)
             return o
-    elif op == "push":
+    elif op in ("push", "push-cb"):
+        pcb_calls = []
+        pcb = scen.make_callback(impl, "ok", pcb_calls) if op == "push-cb" else None
+
         def do():
-            o = sess.call("push", io.BytesIO(scen.blob("c11p", 40000 if big else 9000)), "/p", mtime=3, **kw)
+            o = sess.call("push", io.BytesIO(scen.blob("c11p", 40000 if big else 9000)), "/p", mtime=3, **(dict(kw, progress_callback=pcb) if pcb else kw))
             if o.ok:
-                o.value = [(bytes(p["path"]), bytes(p["data"]), p["status"]) for p in plan.pushed]
+                # (the progress reports belong to the result, as for pull)
+                o.value = [(bytes(p["path"]), bytes(p["data"]), p["status"]) for p in plan.pushed] + ([list(pcb_calls)] if pcb else [])
             return o
     return sess, do, None
 
@@ -307,9 +318,47 @@ def effective(case, op, awaiting_pubkey=False):
     return t_eff, r_eff, (X if has_x else None)
 
 
+def run_killed(case, stats):
+    op, impl = case["op"], case["impl"]
+    viol = []
+    sess, do, _ = setup(impl, case)
+    try:
+        sess.sim.exclusive_sync = True
+        sess.sim.early_close = bool(case.get("variant"))
+        t_eff, r_eff, x_eff = effective(case, op)
+        t0 = sess.clock.now()
+        out = do()
+        dt = sess.clock.now() - t0
+        killed = [st for st in sess.sim.all_streams if getattr(st, "aborted", False)]
+        where = "%s(%s) T=%r R=%r against a device that closes the outer FileSync stream (FAIL + CLSE) when the nested one opens" % (op, impl, case["T"], case["R"])
+        if not killed:
+            stats["stalls_not_reached"] += 1
+            return None, viol
+        stats["stalls_reached"] += 1
+        stats["outer_streams_killed"] = stats.get("outer_streams_killed", 0) + 1
+        bound = K * (max(r_eff, 0) + max(t_eff, 0)) + 0.5
+        if out.kind == "budget":
+            viol.append({"mechanism": "non-termination", "detail": "%s: %s" % (where, out.brief(160))})
+        elif out.kind == "hang":
+            viol.append({"mechanism": "blocks-forever", "detail": "%s: %s" % (where, out.brief(160))})
+        elif out.ok:
+            viol.append({"mechanism": "fabricated-result", "detail": "%s: returned normally (%d bytes) although the device never sent the file" % (where, len(out.value[0]))})
+        elif out.exc_name() not in ("AdbTimeoutError", "TcpTimeoutException", "AdbCommandFailureException"):
+            viol.append({"mechanism": "wrong-exception", "detail": "%s: raised %s" % (where, out.brief(160))})
+        if dt > bound:
+            viol.append({"mechanism": "too-slow", "detail": "%s: took %.2f virtual seconds, bound %.2f" % (where, dt, bound)})
+        stats["max_ratio"] = max(stats["max_ratio"], round(dt / bound, 4))
+        return "killed|%s|%r|%r|%s|%s" % (impl, case["T"], case["R"], case.get("variant"), out.exc_name() if not out.ok else "ret"), viol
+    finally:
+        dispose(sess)
+
+
 def run_case(case):
     op, impl = case["op"], case["impl"]
     stats = {"stalls_reached": 0, "stalls_not_reached": 0, "timeout_args_checked": 0, "max_ratio": 0.0, "max_calls_in_op": 0, "floods": 0, "normal_returns": 0}
+    if case.get("kind") == "killed":
+        sig, viol = run_killed(case, stats)
+        return {"sig": sig, "violations": viol[:3], "stats": stats, "sample": {"case": case, "sig": sig} if case["seed"].endswith("k3") else None}
     exc_hist = {}
     viol = []
     sigs = []
@@ -366,6 +415,12 @@ def run_case(case):
                 e0 = 0 if op.startswith("connect") else sess.sim.emitted
                 st = Staller(sess, ref_streams[j] if kind == "mute-stream" else e0 + j, kind, t_eff, r_eff)
                 nreads = len(sess.core.read_timeouts)
+                pubkey_call = []
+
+                def on_host_packet(pkt, sess=sess, pubkey_call=pubkey_call):
+                    if pkt.cmd == "AUTH" and pkt.arg0 == 3 and not pubkey_call:
+                        pubkey_call.append(len(sess.core.read_timeouts))        # (index into the list of timeout arguments) from here on the host may wait auth_timeout_s (for the user), not before
+                sess.sim.on_host_packet = on_host_packet
                 t0 = sess.clock.now()
                 out = do()
                 dt = sess.clock.now() - t0
@@ -375,7 +430,7 @@ def run_case(case):
                 stats["stalls_reached"] += 1
                 stats["floods"] += st.floods
                 stats["max_calls_in_op"] = max(stats["max_calls_in_op"], sess.core.calls_in_op)
-                a = (case["A"] or 0) if op == "connect-auth" else 0
+                a = (case["A"] or 0) if (op == "connect-auth" and (pubkey_call or case["A"] is None)) else 0
                 bound = K * (max(r_eff, 0) + max(t_eff, 0) + max(a, 0)) + (max(x_eff, 0) if x_eff is not None else 0) + 0.5
                 ratio = dt / bound
                 stats["max_ratio"] = max(stats["max_ratio"], round(ratio, 4))
@@ -396,10 +451,13 @@ def run_case(case):
                     viol.append({"mechanism": "too-slow", "detail": "%s: took %.2f virtual seconds, bound %.2f" % (where, dt, bound)})
                 # timeout arguments handed to the transport
                 lim = r_eff
-                for (k_, t) in sess.core.read_timeouts[nreads:]:
+                for idx_, (k_, t) in enumerate(sess.core.read_timeouts[nreads:], nreads):
                     stats["timeout_args_checked"] += 1
-                    if op == "connect-auth" and t == case["A"]:
+                    if op == "connect-auth" and t == case["A"] and (case["A"] is None or (pubkey_call and idx_ >= pubkey_call[0]) or t <= lim):
                         continue
+                    if op == "connect-auth" and t == case["A"]:
+                        viol.append({"mechanism": "timeout-arg", "detail": "%s: a transport call BEFORE the public key was offered got auth_timeout_s=%r as its timeout (effective read limit %r)" % (where, t, lim)})
+                        break
                     if t is None:
                         viol.append({"mechanism": "timeout-arg", "detail": "%s: a transport call got timeout None" % where})
                         break
